@@ -1,0 +1,57 @@
+//go:build verif
+
+// Contracts for the custom XML marshalers of content controls (sdt.go) and formula paragraphs (math.go) - writer half of
+// property C03 (what a custom marshaler does not hand to the encoder is lost by every Save) and of C01 (which values reach
+// the serialiser of the main part). Read by /verif/engine (govc). Ghost sequence encCount()/encAt(i) as in
+// zz_contracts_verif_marshal.go: the values (*xml.Encoder).Encode accepted, in order.
+// Comments only: with or without the build tag this file adds no code to the package.
+package document
+
+// SDTContent.MarshalXML (w:sdtContent): every element of the content list is handed to the encoder exactly once, in list
+// order, as the very value the list holds (the same interface value: the same object, not a copy), and nothing else.
+// SDT itself has no marshaler of its own: encoding/xml writes its fields in declaration order, so "w:sdtPr, then w:sdtEndPr,
+// then w:sdtContent" (the order the schema demands; a content control whose content precedes its properties is rejected by
+// Word) is a fact about the struct declaration. It is decided by the static obligation static:xml-order:document.SDT from
+// go/types (that encoding/xml follows declaration order is its documented behaviour - trusted):
+//@ xml-order SDT: w:sdtPr, w:sdtEndPr, w:sdtContent
+//@ func (*SDTContent).MarshalXML
+//@ props C03, C01
+//@ requires s != nil && e != nil
+//@ modifies nothing
+//@ ensures err == nil ==> encCount() == old(encCount()) + len(s.Elements)
+//@ ensures err == nil ==> forall k int :: 0 <= k && k < len(s.Elements) ==> encAt(old(encCount()) + k) == s.Elements[k]
+//@ loop 1
+//@   invariant 0 <= #i && #i <= len(s.Elements) && unchangedHeap()
+//@   invariant encCount() == old(encCount()) + #i
+//@   invariant forall k int :: 0 <= k && k < #i ==> encAt(old(encCount()) + k) == s.Elements[k]
+//@   decreases len(s.Elements) - #i
+
+// MathParagraph.MarshalXML (a w:p that carries a formula): the paragraph properties (if any), then every run in order (a copy of the run: the value handed over has
+// the fields of the run in the list), then
+// the block formula (m:oMathPara, if any), then the inline formula (m:oMath, if any) - each populated child exactly once and
+// nothing else. The generated clause (one per pointer field of MathParagraph) makes a new field without marshaler support a
+// failed obligation.
+// The formula itself is RAW XML: OfficeMath.RawXML carries the tag `,innerxml`, so encoding/xml copies the string into the
+// part verbatim, without escaping. What is stated here is which OBJECT reaches the encoder (the very *OfficeMath /
+// *OfficeMathPara the paragraph holds, hence the RawXML string the caller stored, unchanged: modifies nothing); that the
+// string is well-formed OMML is a precondition on the caller that no contract of this library can discharge (AddMathFormula
+// stores its argument as it is).
+//@ spec mpIdxMathPara(mp *MathParagraph) int = b2i(mp.Properties != nil) + len(mp.Runs)
+//@ spec mpIdxMath(mp *MathParagraph) int = mpIdxMathPara(mp) + b2i(mp.MathPara != nil)
+//@ spec mpParts(mp *MathParagraph) int = mpIdxMath(mp) + b2i(mp.Math != nil)
+//@ func (*MathParagraph).MarshalXML
+//@ props C03, C01
+//@ requires mp != nil && e != nil
+//@ modifies nothing
+//@ ensures err == nil ==> encCount() == old(encCount()) + mpParts(mp)
+//@ ensures err == nil && mp.Properties != nil ==> typeIs(encAt(old(encCount())), "*ParagraphProperties") && encAt(old(encCount())).(*ParagraphProperties) == mp.Properties
+//@ ensures err == nil ==> forall k int :: 0 <= k && k < len(mp.Runs) ==> typeIs(encAt(old(encCount()) + b2i(mp.Properties != nil) + k), "Run") && encAt(old(encCount()) + b2i(mp.Properties != nil) + k).(Run).Properties == mp.Runs[k].Properties && encAt(old(encCount()) + b2i(mp.Properties != nil) + k).(Run).Text.Content == mp.Runs[k].Text.Content && encAt(old(encCount()) + b2i(mp.Properties != nil) + k).(Run).Text.Space == mp.Runs[k].Text.Space && encAt(old(encCount()) + b2i(mp.Properties != nil) + k).(Run).Break == mp.Runs[k].Break && encAt(old(encCount()) + b2i(mp.Properties != nil) + k).(Run).Drawing == mp.Runs[k].Drawing && encAt(old(encCount()) + b2i(mp.Properties != nil) + k).(Run).FieldChar == mp.Runs[k].FieldChar && encAt(old(encCount()) + b2i(mp.Properties != nil) + k).(Run).InstrText == mp.Runs[k].InstrText
+//@ ensures err == nil && mp.MathPara != nil ==> typeIs(encAt(old(encCount()) + mpIdxMathPara(mp)), "*OfficeMathPara") && encAt(old(encCount()) + mpIdxMathPara(mp)).(*OfficeMathPara) == mp.MathPara
+//@ ensures err == nil && mp.Math != nil ==> typeIs(encAt(old(encCount()) + mpIdxMath(mp)), "*OfficeMath") && encAt(old(encCount()) + mpIdxMath(mp)).(*OfficeMath) == mp.Math
+//@ ensures forall-fields F of MathParagraph ptr :: err == nil && mp.$F != nil ==> exists i int :: old(encCount()) <= i && i < encCount() && typeIs(encAt(i), "*$T") && encAt(i).(*$T) == mp.$F
+//@ loop 1
+//@   invariant 0 <= #i && #i <= len(mp.Runs) && unchangedHeap()
+//@   invariant encCount() == old(encCount()) + b2i(mp.Properties != nil) + #i
+//@   invariant mp.Properties != nil ==> typeIs(encAt(old(encCount())), "*ParagraphProperties") && encAt(old(encCount())).(*ParagraphProperties) == mp.Properties
+//@   invariant forall k int :: 0 <= k && k < #i ==> typeIs(encAt(old(encCount()) + b2i(mp.Properties != nil) + k), "Run") && encAt(old(encCount()) + b2i(mp.Properties != nil) + k).(Run).Properties == mp.Runs[k].Properties && encAt(old(encCount()) + b2i(mp.Properties != nil) + k).(Run).Text.Content == mp.Runs[k].Text.Content && encAt(old(encCount()) + b2i(mp.Properties != nil) + k).(Run).Text.Space == mp.Runs[k].Text.Space && encAt(old(encCount()) + b2i(mp.Properties != nil) + k).(Run).Break == mp.Runs[k].Break && encAt(old(encCount()) + b2i(mp.Properties != nil) + k).(Run).Drawing == mp.Runs[k].Drawing && encAt(old(encCount()) + b2i(mp.Properties != nil) + k).(Run).FieldChar == mp.Runs[k].FieldChar && encAt(old(encCount()) + b2i(mp.Properties != nil) + k).(Run).InstrText == mp.Runs[k].InstrText
+//@   decreases len(mp.Runs) - #i
